@@ -443,6 +443,7 @@ def main():
     # may only say that the machine was busy.  Such a case is replayed alone, up to three times; it is kept as a
     # failure only if it fails every time (a deterministic defect always reproduces; the replay is what is reported).
     retimed = retimed_cleared = 0
+    retimed_extra = []
     retry_pat = re.compile(cfg.get("retry_sigs", r"(C08:reply-lost$|C08:error$|C05:recovery-error|C05:timing|C03:frame-incomplete|:error:timeout$|C06:slow|C09:open-failed|C10:outcome|C12:error:timeout|C18:timeouts-first-send|C18:stale-timeout|C18:next-timeout-ignored|C05:per-op-|C07:leak:generic-(standard|telnet)|C07:transport-open$)"))
     if not replay_file and not any(b[0] == "harness-build" for b in broken):
         for idx, c in enumerate(cases):
@@ -460,14 +461,22 @@ def main():
                 except subprocess.TimeoutExpired:
                     break
                 rr = [json.loads(l) for l in p.stdout.decode("utf-8", "replace").splitlines() if l.startswith("{")]
-                if len(rr) == 1 and not rr[0].get("oracle"):
-                    cleared = rr[0]
+                # a case that could not be set up made no observation at all; its replay may come with a companion
+                # (C07: the record of yield points, id "<id>/trace").  For every other class exactly one line is expected.
+                main = rr
+                if len(rr) > 1 and (c.get("sig") or "").endswith(":setup-failed"):
+                    main = [x for x in rr if x.get("id") == c["id"]]
+                if len(main) == 1 and not any(x.get("oracle") for x in rr):
+                    cleared = main[0]
+                    cleared_extra = [x for x in rr if x is not cleared]
                     break
             os.remove(rf)
             if cleared is not None:
                 cleared["retimed"] = c.get("sig")
                 cases[idx] = cleared
+                retimed_extra.extend(cleared_extra)
                 retimed_cleared += 1
+    cases.extend(retimed_extra)
 
     # ---- standing sub-checks: regex engine vs Go regexp (RX), pure channel functions vs Go (PF)
     rx_cases = rx_bad = 0
@@ -597,6 +606,14 @@ def main():
     # ---- verdict
     known = [k for k in load_known() if k.get("property") == pid and k.get("status") == "known"]
     oracle_fail = [c for c in cases if c.get("oracle")]
+    # a case whose scenario could not even be set up (the harness could not open the connection the property speaks
+    # about) says nothing about the property: it is not a failing input.  It has been replayed alone (5b); if the set-up
+    # still fails, the scenario is no longer exercised against the implementation, which is a broken correspondence.
+    setup_failed = [c for c in oracle_fail if (c.get("sig") or "").endswith(":setup-failed")]
+    if setup_failed:
+        oracle_fail = [c for c in oracle_fail if c not in setup_failed]
+        broken.append(("harness-setup", "%d scenario(s) could not be set up even when replayed alone, e.g. %s: %s" % (
+            len(setup_failed), json.dumps(setup_failed[0].get("replay")), setup_failed[0].get("oracle"))))
     known_hits = {}
     new_fail = []
     for c in oracle_fail:
